@@ -20,8 +20,8 @@ def classify(res, case):
     return out
 
 
-PLAN = e1prop.Plan('C01', ROWS, cfgs=('v6', 'v7', 'v5', 'v4', 'v6-nosec'), classify=classify,
-                   case_kw=lambda rng, row: {'mpu': False, 'e': 0})
+PLAN = e1prop.Plan('C01', ROWS, cfgs=('v6', 'v7', 'v5', 'v4', 'v6-nosec', 'v7-virt'), classify=classify,
+                   case_kw=lambda rng, row: {'mpu': False, 'mmu': False, 'e': 0})
 
 
 def run(ctx):
